@@ -37,11 +37,14 @@ TYPES = {
     "type(tt)": [""],
 }
 DUMMY_TYPES = {"character": ["(len=*)", "*(*)"], "class(tt)": [""], "integer": [""], "real": ["(8)"]}
-ATTRS = ["allocatable", "pointer", "target", "save", "dimension(3)", "dimension(:, :)", "public", "private", "contiguous"]
-DUMMY_ATTRS = ["intent(in)", "intent(out)", "intent(in out)", "intent(inout)", "optional", "target", "dimension(:)", "contiguous"]
+ATTRS = ["allocatable", "pointer", "target", "save", "dimension(3)", "dimension(:, :)", "public", "private", "contiguous", "volatile", "protected",
+         "asynchronous"]
+DUMMY_ATTRS = ["intent(in)", "intent(out)", "intent(in out)", "intent(inout)", "optional", "target", "dimension(:)", "contiguous", "value", "volatile"]
 CONFLICT = [{"allocatable", "pointer"}, {"public", "private"}, {"dimension(3)", "dimension(:, :)"}, {"target", "pointer"},
             {"intent(in)", "intent(out)"}, {"intent(in)", "intent(in out)"}, {"intent(out)", "intent(in out)"}, {"intent(in)", "intent(inout)"},
-            {"intent(out)", "intent(inout)"}, {"intent(in out)", "intent(inout)"}, {"allocatable", "dimension(3)"}, {"pointer", "dimension(3)"}]
+            {"intent(out)", "intent(inout)"}, {"intent(in out)", "intent(inout)"}, {"allocatable", "dimension(3)"}, {"pointer", "dimension(3)"},
+            {"value", "intent(out)"}, {"value", "intent(in out)"}, {"value", "intent(inout)"}, {"value", "dimension(:)"}, {"value", "volatile"},
+            {"value", "optional"}, {"value", "target"}, {"value", "contiguous"}]
 DOCS = ["none", "pre", "pre2", "trail", "post", "post2", "pre_blank", "next_pre", "post_next_pre", "post_bang_next_pre", "post_blank_next_pre",
         "trail_next_pre", "trail_bang_next_pre"]
 
